@@ -393,11 +393,26 @@ def check(ck):
                 return False
             srcs = [(hn, hv) for (hn, hv) in q.return_sources(hf)]
             return bool(srcs) and all(hv is not None and term_contains(prov.origin(cfg_of(hf), hn, hv), exc_term) for (hn, hv) in srcs)
+        # the exception's "Type: text" line is not at a fixed position of a formatted trace: format_exception() /
+        # format_exception_only() append the notes of the exception (Python 3.11) after it and put the details of a SyntaxError
+        # before it - a constant index into their result can name a note, a source line or a file position instead
+        def _indexed_trace(x):
+            return isinstance(x, tuple) and x[0] == "item" and isinstance(x[2], tuple) and x[2][0] == "const" and \
+                prov.contains(x[1], lambda y: isinstance(y, tuple) and y[0] == "call" and isinstance(y[1], tuple) and (
+                    (y[1][0] == "attr" and y[1][2] in ("format_exception", "format_exception_only")) or
+                    (y[1][0] == "global" and y[1][1] in ("format_exception", "format_exception_only"))))
+        idx_ = []
+        prov.contains(t, lambda x: idx_.append(x) or False if _indexed_trace(x) else False)
+        ck.require(not idx_, "C05.4", "%s: -32603 message: exception line not taken by position" % q.fn(site.fi),
+                   "no constant index into format_exception(...) / format_exception_only(...)",
+                   "the -32603 message takes `%s`: the \"Type: text\" line of the exception is not at a fixed position of the formatted "
+                   "trace (notes follow it, SyntaxError details precede it), so for such exceptions the message names neither the type nor "
+                   "the text" % (prov.show(idx_[0])[:80] if idx_ else ""), q.loc(site.fi, site.node))
         has_exc = term_contains(t, exc_term) or term_contains(t, via_helper)
         ck.require(has_exc, "C05.4", "%s: -32603 message" % q.fn(site.fi), "message derives from the caught exception",
                    "the -32603 message %s does not derive from the caught exception (type and text are lost)" % prov.show(t)[:120],
                    q.loc(site.fi, site.node))
-    ck.floor("C05.4", 5)
+    ck.floor("C05.4", 8)
 
     # ---- C05.4b the error reply can be marshaled: no request-derived `data` on the dispatcher's own faults -------------------------
     # Fault.data is emitted as it is (it does not go through jsonclass.dump): an argument the translator turned into an object
